@@ -36,6 +36,9 @@ struct Plan {
     end: End,
     expect: Expect,
     use_bytes: bool,
+    /// a header line of this head is folded (obs-fold): a client may refuse the head (RFC 9112 5.2), but
+    /// if it accepts it, it has unfolded the line and frames the body by the unfolded fields
+    folded: bool,
     seg_name: &'static str,
     script: Script,
     why: String,
@@ -164,8 +167,14 @@ fn gen(g: &mut G) -> Plan {
     for v in &cl {
         headers.push(((*g.pick(&["Content-Length", "content-length"])).to_string(), v.clone().into_bytes()));
     }
-    for v in &te {
-        headers.push(((*g.pick(&["Transfer-Encoding", "transfer-encoding"])).to_string(), v.clone().into_bytes()));
+    // (no draw) the last transfer-coding line folded: "Transfer-Encoding:" CRLF SP "chunked"
+    let folded = !te.is_empty() && !must_be_empty && n % 6 == 5 && matches!(expect, Expect::Body(_));
+    if folded {
+        g.probe("transfer-encoding-line-folded");
+    }
+    for (i, v) in te.iter().enumerate() {
+        let val = if folded && i + 1 == te.len() { format!("\r\n {}", v.trim()).into_bytes() } else { v.clone().into_bytes() };
+        headers.push(((*g.pick(&["Transfer-Encoding", "transfer-encoding"])).to_string(), val));
     }
     if content_encoding_gzip {
         headers.push(("Content-Encoding".into(), b"gzip".to_vec()));
@@ -213,6 +222,7 @@ fn gen(g: &mut G) -> Plan {
         end,
         expect,
         use_bytes: g.chance(1, 2),
+        folded,
         seg_name,
         script,
         why,
@@ -335,6 +345,7 @@ pub fn scenario(g: &mut G, ctx: &RunCtx) -> RunReport {
                     Verdict::Pass
                 }
             }
+            Expect::Body(_) if p.folded && (o.send_err.is_some() || o.read_err.is_some()) => Verdict::Pass,
             Expect::Body(b) => {
                 if let Some(e) = &o.send_err {
                     violation(format!("send-failed:{}:{}", e, tag), format!("send() failed with {} ({}; cl={:?} te={:?})", e, p.why, p.cl, p.te))
